@@ -123,6 +123,23 @@ theorem mjSAP_all {cmp : K → K → Int} (gt : β → β → Bool) (boxes : Lis
     rw [heq]; omega
   · simp [hge]
 
+/-- **the buffer of `mj_broadphase` always suffices**: `n` boxes produce at most `n (n-1) / 2` pairs (a consequence of
+    exactly-once), so the call `mj_SAP(d, aamm, ncollide, 0, sappair, ncollide (ncollide-1) / 2)` is never truncated
+    and returns all pairs. -/
+theorem sap_never_truncated {cmp : K → K → Int} (hc : TotalPreorder cmp) (gt : β → β → Bool)
+    (boxes : List (Box ι K β)) (hid : (boxes.map (·.id)).Nodup) (h1 : 1 < boxes.length) (hn : boxes.length < 65536) :
+    (sapPairs cmp gt boxes).length ≤ boxes.length * (boxes.length - 1) / 2 ∧
+    (mjSAP cmp gt boxes ((boxes.length * (boxes.length - 1) / 2 : Nat) : Int)).2 = sapPairs cmp gt boxes := by
+  have hle := sapPairs_length_le hc gt hid
+  refine ⟨hle, (mjSAP_all gt boxes _ hn ?_ ?_).1⟩
+  · have : 1 ≤ boxes.length * (boxes.length - 1) / 2 := by
+      have h2 : 2 ≤ boxes.length * (boxes.length - 1) := by
+        have : 2 * 1 ≤ boxes.length * (boxes.length - 1) := Nat.mul_le_mul (by omega) (by omega)
+        omega
+      exact (Nat.le_div_iff_mul_le (by decide : 0 < 2)).mpr (by omega)
+    exact_mod_cast this
+  · rw [Int.toNat_natCast]; exact hle
+
 end sap
 
 /-! non-vacuity of the hypotheses of `sap_complete`: an order comparator on integers is a total preorder, and
